@@ -1001,6 +1001,28 @@ class Pass2(CompilePass):
         if node.lines and not node.lines.type.is_numeric:
             raise CompileError(EC.TYPE_MISMATCH, node=node.lines)
 
+    def _check_numeric_operands(self, node, fields):
+        for field in fields:
+            operand = getattr(node, field)
+            if operand is not None and not operand.type.is_numeric:
+                raise CompileError(
+                    EC.TYPE_MISMATCH,
+                    'Expected numeric expression',
+                    node=operand)
+
+    def process_color_pre(self, node):
+        self._check_numeric_operands(
+            node, ['foreground', 'background', 'border'])
+
+    def process_sound_pre(self, node):
+        self._check_numeric_operands(node, ['frequency', 'duration'])
+
+    def process_randomize_pre(self, node):
+        self._check_numeric_operands(node, ['seed'])
+
+    def process_def_seg_pre(self, node):
+        self._check_numeric_operands(node, ['segment'])
+
     def process_play_pre(self, node):
         if node.command_string.type != Type.STRING:
             raise CompileError(EC.TYPE_MISMATCH,
